@@ -68,9 +68,13 @@ def cart_case(ck: Check, rng, reqs, expect, corner=False):
 
     dim = rng.choice([1, 2, 2, 3])
     shape = [rng.randint(12, 40) if dim == 1 else (rng.randint(8, 24) if dim == 2 else rng.randint(7, 12)) for _ in range(dim)]
-    h = [rng.choice([1.0, 0.5, 0.39, 1.5]) * rng.choice([1.0, 1.0, 1.3]) for _ in range(dim)]
-    lo = [rng.choice([0.0, -3.7, 11.0]) for _ in range(dim)]
+    # the unit of length: every length of the case is multiplied by it (nanometres in metres ... kilometres in metres)
+    unit = rng.choice([1.0, 1.0, 1.0, 1e-9, 1e-3, 1e4])
+    h = [rng.choice([1.0, 0.5, 0.39, 1.5]) * rng.choice([1.0, 1.0, 1.3]) * unit for _ in range(dim)]
+    lo = [rng.choice([0.0, -3.7, 11.0]) * unit for _ in range(dim)]
     per = [rng.random() < 0.6 for _ in range(dim)]
+    if unit != 1.0:
+        ck.count("cartesian.unit_of_length_not_1")
     if corner and dim >= 2:
         # a droplet around a CORNER of the box on a grid with unequal cell counts, at least two periodic axes: the pieces
         # are merged through a chain of boundary pairs (three-piece configurations when the corner cell itself is not covered)
@@ -132,7 +136,7 @@ def cart_case(ck: Check, rng, reqs, expect, corner=False):
             if not rel_close(f.volume, ncov * cellvol, 1e-12):
                 ck.fail(f"volume {f.volume} != {ncov} covered cells x {cellvol}", {**sig, "check": "volume"}, case)
             off = np.abs(pdiff(f.position, d.position, grid))
-            if np.any(off >= hh / 2 + 1e-9):
+            if np.any(off >= hh / 2 * (1 + 1e-9)):
                 ck.fail(f"centre off by {off} (half spacing {hh / 2})", {**sig, "check": "lattice_fibres_com"}, case)
             for a in range(dim):
                 if grid.periodic[a] and not (grid.axes_bounds[a][0] <= f.position[a] <= grid.axes_bounds[a][1]):  # closed: (x - lo) % L + lo may round up to hi
